@@ -137,6 +137,11 @@ func buildPod(r *rand.Rand, cat int, cur, old *edsv1.ExtendedDaemonSetReplicaSet
 	pod, _ := podutils.CreatePodFromDaemonSetReplicaSet(theScheme, rs, nodeForPod, setting, affinity)
 	pod.Name = fmt.Sprintf("%s-p%d", rs.Name, idx)
 	pod.GenerateName = ""
+	// which node this pod was built for, independently of how the code under test reads it back
+	if pod.Annotations == nil {
+		pod.Annotations = map[string]string{}
+	}
+	pod.Annotations["verif/built-for"] = node.Node.Name
 	pod.CreationTimestamp = mt(now.Add(-time.Duration(60+r.Intn(300)) * time.Second))
 	pod.Status.Phase = corev1.PodRunning
 	if affinity && r.Intn(2) == 0 {
@@ -160,6 +165,10 @@ func buildPod(r *rand.Rand, cat int, cur, old *edsv1.ExtendedDaemonSetReplicaSet
 			pod, _ = podutils.CreatePodFromDaemonSetReplicaSet(theScheme, rs, nodeForPod, setting, true)
 			pod.Name = fmt.Sprintf("%s-p%d", rs.Name, idx)
 			pod.GenerateName = ""
+			if pod.Annotations == nil {
+				pod.Annotations = map[string]string{}
+			}
+			pod.Annotations["verif/built-for"] = node.Node.Name
 		}
 		pod.Status.Phase = corev1.PodPending
 		pod.CreationTimestamp = mt(now.Add(-time.Duration(11+r.Intn(30)) * time.Minute))
